@@ -302,17 +302,23 @@ Theorem C20_chain_total_partial : forall dial conf N, chain_ok dial conf N = tru
 Proof. exact rchain_total. Qed.
 Print Assumptions C20_chain_total_partial.
 
-(* ... and is false without it: a table whose replacement type leads back to the overridden key never stops
-   (known finding C20/schema-table-override-recursion: RecursionError) *)
-Theorem C20_chain_total_refuted : ~ (forall dial conf t, exists n u, rchain dial conf n t = Some u).
-Proof. exact rchain_total_refuted. Qed.
-Print Assumptions C20_chain_total_refuted.
+(* ... and, since /repo PENDING (Instance._overridden_types: a table strategy is not applied again below its own replacement),
+   for EVERY table: rchain_v is the rewriting with the keys already used on the path skipped *)
+Theorem C20_chain_total : forall dial conf vis t, exists n u, rchain_v dial conf n vis t = Some u.
+Proof. exact rchain_v_total. Qed.
+Print Assumptions C20_chain_total.
 
-Theorem C20_chain_cycle_diverges : forall n,
-  rchain [] [("int", ORet (Some (TList TInt)))] n TInt = None /\
-  rchain [] [("int", ORet (Some TStr)); ("str", ORet (Some TInt))] n TInt = None.
-Proof. intros n. split; [exact (proj1 (cyc1_diverges n))|exact (proj1 (cyc2_diverges n))]. Qed.
-Print Assumptions C20_chain_cycle_diverges.
+Theorem C20_chain_v_mono : forall dial conf (n m: nat) vis t u, (n <= m)%nat -> rchain_v dial conf n vis t = Some u -> rchain_v dial conf m vis t = Some u.
+Proof. exact rchain_v_mono_le. Qed.
+Print Assumptions C20_chain_v_mono.
+
+(* the tables of the former finding table-override-recursion (int -> List[int]; int -> str -> int): the chain without the
+   visited keys never stops on them (rchain, the behaviour before the fix), the implementation's rewriting does *)
+Example C20_chain_cycle_resolved :
+  (forall n, rchain [] [("int", ORet (Some (TList TInt)))] n TInt = None) /\
+  rchain_v [] [("int", ORet (Some (TList TInt)))] 6%nat [] TInt = Some (TList TInt) /\
+  rchain_v [] [("int", ORet (Some TStr)); ("str", ORet (Some TInt))] 6%nat [] (TTuple [TInt; TStr]) = Some (TTuple [TInt; TStr]).
+Proof. split; [intros n; exact (proj1 (cyc1_diverges n))|split; vm_compute; reflexivity]. Qed.
 
 (* on the one-step fragment (tabs_flat: no registered replacement type mentions an overridden key) the chain IS the rewriting
    resolve_ty of the C20_override_* theorems, for every sufficient fuel ... *)
